@@ -21,7 +21,7 @@ import (
 //   N3 key format absent                                      ==  informal
 //   N4 entity.primaryKey = false                              ==  absent
 //   N5 enum in / notIn names are compared without the enum prefix
-//   N6 a custom key pattern equal to the published id62 pattern  ==  key format id62
+//   N6 for array items: a custom key pattern equal to the published id62 pattern  ==  key format id62
 type Flat struct {
 	kv [][2]string
 }
@@ -97,6 +97,12 @@ func declaredFlat(s *Spec, num int) *Flat {
 		f.set("desc", hexS(*s.Desc))
 	}
 	f.set("arr", b01(s.Arr))
+	if s.Map {
+		f.set("arr", "m")
+		f.set("amin", optU(s.AMin))
+		f.set("amax", optU(s.AMax))
+		f.set("single", optS(s.ASF))
+	}
 	if s.Arr {
 		f.set("amin", optU(s.AMin))
 		f.set("amax", optU(s.AMax))
@@ -150,8 +156,8 @@ func declaredFlat(s *Spec, num int) *Flat {
 		case "", "inf":
 			f.set("kf", "inf")
 		case "cus":
-			if s.Pat != nil && *s.Pat == id62Pattern {
-				f.set("kf", "id62") // N6
+			if (s.Arr || s.Map) && s.Pat != nil && *s.Pat == id62Pattern {
+				f.set("kf", "id62") // N6 (array items only: their key annotation is replaced by the array's)
 			} else {
 				f.set("kf", "cus")
 				f.set("kpat", optS(s.Pat))
@@ -221,6 +227,23 @@ func reflectedFlat(p *schema_j5pb.ObjectProperty) *Flat {
 			f.set("single", hexS(*arr.Ext.SingleForm))
 		}
 		field = arr.Items
+	}
+	if mp := field.GetMap(); mp != nil {
+		f.set("arr", "m")
+		if r := mp.Rules; r != nil {
+			f.set("amin", optU(r.MinPairs))
+			f.set("amax", optU(r.MaxPairs))
+		}
+		if mp.Ext != nil && mp.Ext.SingleForm != nil {
+			f.set("single", hexS(*mp.Ext.SingleForm))
+		}
+		if mp.KeySchema != nil {
+			// keys are always plain strings (j5s `keySchema` is not generated: the compiler ignores it)
+			if _, ok := mp.KeySchema.Type.(*schema_j5pb.Field_String_); !ok {
+				f.set("single", "other:keyschema")
+			}
+		}
+		field = mp.ItemSchema
 	}
 	switch t := field.GetType().(type) {
 	case *schema_j5pb.Field_String_:
